@@ -108,11 +108,11 @@ def hist_prop(pid, theorems, partial, rule_extra, level_text, level_note, techni
         "runners": [{"name": pid, "synctest": True}],
         "theorems": theorems,
         "partial": partial,
-        "rule": "corpus first: scripted scenarios reproducing the witnesses of the repaired findings (F2 F3 F4 F8 F9 F11 F13 F16, big message at Close"
+        "rule": "corpus first: scripted scenarios reproducing the witnesses of the repaired findings (F2 F3 F4 F8 F9 F11 F13 F16, big message at Close), scripted Persistence faults at chosen operations (Save at a persisted publish with limit 1 and while online, PUBREL Save at the PUBREC, Delete at PUBACK/PUBCOMP), acknowledgements carrying exactly the identifier next in line in every queue configuration, a restart at the identifier wrap (PUBREL 0xffff + PUBLISH 0xc000 in a crafted store"
                 + (", 14 damage scenarios" if pid == "C16" else "") + "), then seeded random sequential histories (10-50 API calls each: ReadSlices, "
                 "Publish, persisted publishes on both levels, Subscribe/Unsubscribe/Ping in goroutines, quit, Close/Disconnect, ReadBackoff, process stop + "
                 "AdoptSession) against a scripted broker that acknowledges, withholds, duplicates and fragments, with injected dial/read/write/Persistence "
-                "faults; " + rule_extra + " Non-trivial = at least one failing or short environment answer, or a restart; distinct = distinct Coq term.",
+                "faults; half of the histories end with a GOOD SUFFIX (marker call, then a benign environment and six more ReadSlices calls) after which every accepted transfer must have completed, every returned message been acknowledged and every waiting request returned; " + rule_extra + " Non-trivial = at least one failing or short environment answer, or a restart; distinct = distinct Coq term.",
         "assumptions": ["sequential histories: one API call at a time; requests that wait for a response are parked goroutines observed at quiescence (synctest)",
                         "the invariant theorems hold while the 64-bit storage counter has not overflowed (2^64 Saves)",
                         "concurrent publishers are serialised per level by the sequence semaphore (L3 argument, DESIGN 6/C05), not modelled in L2"] + list(assumptions),
@@ -127,7 +127,7 @@ REFINE = ("Every API call of the session model is proved to be a finite sequence
 
 hist_prop("C01",
     ["c01_every_call_refines", "c01_record_kept", "c01_record_leaves_only_by_puback", "c01_record_leaves_only_by_pubcomp", "c01_no_fault_stops_it"],
-    ["liveness (c01_settles: under a good suffix every exchange closes) is not a theorem; judged on histories only",
+    ["liveness (c01_settles: under a good suffix every exchange closes) is not a theorem; it is judged on histories that end with a benign environment (settled_exchanges) and on the scripted fault scenarios",
      "'written in full' / 'resent on each connection' are judged on histories (c01_ok, c05_ok, hist_agree), the theorems cover the Persistence and counters"],
     "C01 generator: window sizes 1-16, fault rate up to 12 %, Persistence faults up to 8 %, acknowledgements withheld up to 40 %.",
     REFINE + "Corollaries: a record stays until the in-order final acknowledgement is applied and leaves only in that step together with the queue head. "
@@ -156,10 +156,10 @@ hist_prop("C05",
 
 hist_prop("C17",
     ["c17_invariant", "c17_inflight_le_max", "c17_ids_distinct_alo", "c17_ids_distinct_eo", "c17_ids_range", "c17_ids_levels_disjoint", "c17_accept_id"],
-    ["subscribe/unsubscribe identifiers (13-bit counter, skip on collision) are judged on histories (sub_step); no theorem yet",
+    [
      "'ErrMax iff full, without blocking' is judged on histories; the model function is total (no blocking) by construction"],
     "C17 generator: AtLeastOnceMax/ExactlyOnceMax in {0,1,2,3,-1,16384,20000}, no Persistence faults.",
-    REFINE + "Corollaries: in-flight count per level <= configured maximum <= 16384; identifiers of the window pairwise distinct across the 14-bit wrap, non-zero, in the range of their kind, the two kinds disjoint. "
+    REFINE + "Corollaries: in-flight count per level <= configured maximum <= 16384; identifiers of the window pairwise distinct across the 14-bit wrap, non-zero, in the range of their kind, the two kinds disjoint. Subscribe/unsubscribe identifiers: TxInv (pending identifiers pairwise distinct, non-zero, in the space of their kind, at most 512 pending) holds in every reachable state for every history including adoptions (c17_tx_invariant); the skip loop always finds a free identifier within its fuel; ErrMax iff 512 are pending, and then nothing is called (c17_subscribe_errmax_iff/_silent). "
     "c17_ok judges the trace: new identifier free, window within the limit, ErrMax exactly when full, subscribe/unsubscribe identifiers distinct among pending requests and in their range.",
     "Trusted: Coq kernel; the Session model; harness.",
     "Coq refinement + invariant proof (arithmetic mod 2^14) + model/implementation correspondence")
@@ -168,11 +168,11 @@ ALLSTATES = "The theorems are about the executable session model (Session.v) for
 
 hist_prop("C02",
     ["c02_adopt_exact", "c02_adopt_some", "c02_repeat", "c02_any_stop_point", "c02_order_independent", "c02_pinned_full_window_refuted"],
-    ["side conditions known_keys and markers_genuine (only keys the client itself writes; markers are genuine records) are hypotheses of c02_adopt_exact, preserved by adoption (c02_repeat) but not yet proved preserved by every ostep",
+    ["the 64-bit storage counter must stay below 2^64 in every state along the history (adoption resets it to the largest stored number, so a bound on the final state alone would say nothing about earlier ones)",
      "the sequence-continues clause excludes key 0 (client identifier); FileSystem as a store is the subject of C19; both stores (volatile map via simStore) are exercised on histories"],
     "C02 generator: restart rate 6-12 % per step, so 1-5 stop/adopt cycles per history with publishes and acknowledgements in between; stop points are the API-call boundaries of the history.",
-    REFINE + "AdoptSession on the Persistence of any state satisfying the invariant is exact (c02_adopt_exact: a client, no warning, nothing deleted, same windows/identifiers/stages, storage sequence continued, invariant again) and composes for any number of cycles (c02_repeat); each abstract transition performs at most one Save/Delete, so stop points between Persistence operations are covered (c02_any_stop_point). The pinned counter reconstruction is refuted for a full PUBREL window (F22, repaired). c02_ok judges the trace (no warnings on an untampered store, delete/ack/order rules across restarts).",
-    "Trusted: Coq kernel; Session model; harness. Hypotheses known_keys/markers_genuine as stated in coverage.partial.",
+    REFINE + "AdoptSession on the Persistence of any state satisfying the invariant is exact (c02_adopt_exact: a client, no warning, nothing deleted, same windows/identifiers/stages, storage sequence continued, invariant again) and composes for any number of cycles (c02_repeat); each abstract transition performs at most one Save/Delete, so stop points between Persistence operations are covered (c02_any_stop_point). Mixed histories (API calls interleaved with any number of stop + AdoptSession cycles, failed adoptions included) keep Good = OInv' + known_keys + markers_genuine in every state (c02_reachable_good_mixed_all); a failed adoption deletes nothing. The pinned counter reconstruction is refuted for a full PUBREL window (F22, repaired). c02_ok judges the trace (no warnings on an untampered store, delete/ack/order rules across restarts).",
+    "Trusted: Coq kernel; Session model; harness. The former side conditions known_keys/markers_genuine are now invariants of every reachable state of mixed histories (c02_reachable_good_mixed), so c02_adopt_exact_reachable has no hypothesis beyond 'no Persistence failure during adoption' and 'limits not below the pending windows'.",
     "Coq proof (sorting by storage number, arithmetic mod 2^14) on top of refinement + invariant; model/implementation correspondence with restarts")
 
 hist_prop("C04",
@@ -195,7 +195,7 @@ hist_prop("C13",
     ["c13_violation_resets", "c13_other_types", "c13_suback_count", "c13_error_resets", "c13_big_error_resets", "c13_remlen_resets", "c13_redial",
      "c13_no_forged_progress", "c13_counters_in_order", "c13_records_in_order", "c13_release_in_order", "c13_errs_in_model"],
     ["'never panics' for the Go code is observed (recovered panics are events, no_panic on every history), the model has no panic value",
-     "'never waits beyond PauseTimeout': reads_armed is judged on histories (every mid-packet read has a deadline); no theorem yet",
+     "'never waits beyond PauseTimeout': proved in state-based form (every read of the connection is armed unless it is the first read of a peekPacket call entered with an empty buffer; ReadAll and the skip of a duplicate are armed throughout: c13_step_reads_armed, c13_reachable_reads_armed); the link 'empty buffer at that point = packet boundary of the delivered byte stream' is judged on histories by reads_armed (the one exception, after a failed ReadAll whose connection was closed, is shared by checker and Go code)",
      "allocation bound is observed (BigMessage.Size <= announced), not proved"],
     "C13 generator: hostile broker (reserved/client-only types, second CONNACK, zero/foreign/unsolicited identifiers, QoS 3, five-byte length, illegal SUBACK codes, count mismatch, malformed CONNACK) mixed into valid traffic, against clients with 0..n transfers at each stage.",
     ALLSTATES + "Every listed violation is a protocol-reset error; every handler error closes the connection, goes offline and the next ReadSlices redials; progress (counters, queue heads, record deletion) happens only through the in-order acknowledgement. c13_ok judges the trace: no panic, mid-packet reads armed, deletes only after the in-order ack was read, violating connections closed.",
@@ -283,8 +283,9 @@ PROPS["C15"]["rule"] += (" Second runner C15S (session level): a running client 
 PROPS["C15"]["trusted_extra"] = SEQ_TB
 
 L3TXT = ("Concurrency: the synchronisation skeleton (connSem, writeSem, the two seqSem, queues, context, done/abort) is modelled as a monitor automaton (Sync.v) "
-         "over channel-operation events; recorded event traces of the real client under concurrent publishers, persisted publishers, the read routine and 1-3 "
-         "Close/Disconnect callers (synctest, randomised timing) must all be accepted by the monitor (trace inclusion). ")
+         "over channel-operation events; recorded event traces of the real client under concurrent publishers, persisted publishers, Subscribe/Unsubscribe/Ping callers (mostly without quit), the read routine and 1-3 "
+         "Close/Disconnect callers (synctest, randomised timing, connections whose Close takes a moment) must all be accepted by the monitor (trace inclusion); five gated scenarios force the interleavings of F6, F7 (C11 only), F20, "
+         "'a writer stalled in conn.Write when the read routine meets a read error' and 'requests written to the dying connection while the read routine goes offline'. ")
 
 hist_prop("C10",
     ["c10_error_leaves_connection", "c10_big_error_leaves_connection", "c10_redial", "c10_reset_then_redial", "c10_pending_released", "c10_connect_shape", "c10_own_writes_do_not_wait"],
